@@ -459,6 +459,145 @@ func aggExpireScenario(r *vx.Rand) {
 	w.Quiesce(scenarioTimeout)
 }
 
+// relockScenario: a pessimistic transaction that already holds locks calls LockKeys again on keys it HOLDS together with
+// new keys, and the call fails — write conflict on a new key (a third party committed it after the for-update ts in use), a
+// new key held by an intruder (no-wait: lock failed; waiting: lock-wait time-out) — or succeeds; the transaction carries on
+// (statement retry) and ends with commit or rollback.  After EVERY lock call, failed or not, and after the clean-up of a
+// failed one has run, every key the client still holds must still be locked in the store (`audit held`); an intruder then
+// tries to lock a held key without waiting.  (C01: nothing else locks or commits a key while its locker is open; C06.)
+func relockScenario(r *vx.Rand) {
+	nKeys := 4 + r.Intn(2)
+	keys := keyPool[:nKeys]
+	stores := 1
+	if r.Chance(15) {
+		stores = 3
+	}
+	w := hub.NewWorld(rec, hub.Options{Full: lean, Seed: r.U64(), Splits: pick(r, layoutsOf(1+r.Intn(3))), Stores: stores})
+	defer w.Close()
+	for _, k := range keys {
+		w.TrackKey(k)
+	}
+	if !seed(w, subset(r, keys, 60)) {
+		return
+	}
+	a := w.NewClient("a")
+	step := func(f func()) bool { return runAll(w, scenarioTimeout, f) }
+	if !step(func() { a.Begin(true, pick(r, modes)) }) {
+		return
+	}
+	var held [][]byte
+	isHeld := map[string]bool{}
+	np, nb := 0, 0
+	for st := 2 + r.Intn(4); st > 0; st-- {
+		var free [][]byte
+		for _, k := range keys {
+			if !isHeld[string(k)] {
+				free = append(free, k)
+			}
+		}
+		var call, fresh [][]byte
+		if len(held) > 0 && r.Chance(80) {
+			call = append(call, subsetNonEmpty(r, held, 50)...)
+		}
+		for i := 1 + r.Intn(2); i > 0 && len(free) > 0; i-- {
+			k := pick(r, free)
+			fresh = append(fresh, k)
+		}
+		fresh = sortedKeys(fresh)
+		if len(fresh) == 0 && len(call) == 0 {
+			break
+		}
+		// the caller's order matters (the first key of the first call becomes the primary): held keys first or last
+		if r.Bool() {
+			call = append(call, fresh...)
+		} else {
+			call = append(append([][]byte{}, fresh...), call...)
+		}
+		mode := "ok"
+		if len(fresh) > 0 {
+			mode = pick(r, []string{"ok", "conflict", "conflict", "blocked-nowait", "blocked-wait"})
+		}
+		sel, fl := "fresh", pick(r, []string{"-", "-", "r", "c"})
+		var blocker *hub.Client
+		switch mode {
+		case "conflict":
+			np++
+			if !thirdParty(w, fmt.Sprintf("p%d", np), [][]byte{pick(r, fresh)}, np) {
+				return
+			}
+			sel = "last"
+		case "blocked-nowait", "blocked-wait":
+			nb++
+			blocker = w.NewClient(fmt.Sprintf("b%d", nb))
+			k := pick(r, fresh)
+			if !step(func() {
+				blocker.Begin(true, "2pc")
+				blocker.Lock([][]byte{k}, "n")
+			}) {
+				return
+			}
+			if mode == "blocked-nowait" {
+				fl = pick(r, []string{"n", "rn"})
+			}
+		}
+		res := ""
+		if !step(func() { res = a.LockAt(call, fl, sel) }) {
+			return
+		}
+		rec.Count("c06:relock:" + mode + ":" + res)
+		// the clean-up of a failed call runs in the background
+		if !w.WaitDrained(scenarioTimeout) {
+			w.Hang("drain")
+			return
+		}
+		if res == "ok" {
+			for _, k := range fresh {
+				if !isHeld[string(k)] {
+					isHeld[string(k)] = true
+					held = append(held, k)
+				}
+			}
+		}
+		w.AuditHeld(a, held)
+		if blocker != nil && !step(func() { blocker.Rollback() }) {
+			return
+		}
+		if len(held) > 0 && r.Chance(40) {
+			// the intruder
+			nb++
+			in := w.NewClient(fmt.Sprintf("i%d", nb))
+			k := pick(r, held)
+			if !step(func() {
+				in.Begin(true, "2pc")
+				if in.Lock([][]byte{k}, "n") == "ok" {
+					in.Set(k, val(2, nb, 0))
+					in.Commit()
+				} else {
+					in.Rollback()
+				}
+			}) {
+				return
+			}
+		}
+	}
+	commit := r.Chance(70)
+	if !step(func() {
+		for i, k := range held {
+			if r.Chance(70) {
+				a.Set(k, val(0, 4, i))
+			}
+		}
+		if commit {
+			a.Commit()
+		} else {
+			a.Rollback()
+		}
+	}) {
+		return
+	}
+	w.Quiesce(scenarioTimeout)
+}
+
 // bigKey makes the i-th key of a family of long keys sharing a one-byte prefix (they sort by i).
 func bigKey(prefix byte, i, size int) []byte {
 	k := make([]byte, size)
@@ -625,6 +764,10 @@ func runC06() {
 			fam = "agg-expire"
 			aggExpireScenario(rnd.Fork())
 			rec.Count("c06:family:agg-expire")
+		case i%12 == 3:
+			fam = "relock"
+			relockScenario(rnd.Fork())
+			rec.Count("c06:family:relock")
 		case i%6 == 4:
 			c06AggRetry(rnd.Fork())
 			rec.Count("c06:family:agg-retry")
